@@ -80,6 +80,11 @@ def make_scenarios(rng, tier):
         sid += 1
     scs.append(scenario(sid, 2, 3, [{"op": "remove", "names": ["pa", "pb"]}, {"op": "remove", "names": ["pc", "pd"]}, {"op": "clear"}, {"op": "clear"}], g))
     sid += 1
+    # every rule removed, then an incremental update on the emptied (not cleared) pool
+    scs.append(scenario(sid, 2, 3, [{"op": "remove", "names": list(RN)}, g.op("incr"), g.op("incr")], g))
+    sid += 1
+    scs.append(scenario(sid, 1, 2, [{"op": "remove", "names": ["pa", "pb", "pc"]}, {"op": "incr", "rules": g.rules(["pb"])}], g))
+    sid += 1
     n_rand, maxlen = (12, 8) if tier == "quick" else (300, 12)
     for _ in range(n_rand):
         mn, mx = rng.choice([(2, 3), (1, 4), (1, 2)])
